@@ -38,8 +38,7 @@ import (
 )
 
 var (
-	rxTempNewline = regexp.MustCompile(`\s*\|\\/\|\s*`)
-	rxCSSComment  = regexp.MustCompile(`(?s)/\*.*?\*/`)
+	rxCSSComment = regexp.MustCompile(`(?s)/\*.*?\*/`)
 
 	elementWithSizeAttr = map[string]struct{}{
 		"table": {},
@@ -422,7 +421,11 @@ func srcSetURLSpans(srcset string) [][2]int {
 // `dom.TextContent` is the latter will skip <br> tag while this function will preserve
 // <br> as whitespace. NEED-COMPUTE-CSS
 func InnerText(node *html.Node) string {
-	var buffer bytes.Buffer
+	// The text is collected line by line: a <br> starts a new line. (A marker
+	// written into the text for <br> would also be found where the page itself
+	// has the characters of the marker in its text.)
+	lines := []*bytes.Buffer{{}}
+	buffer := lines[0]
 	var finder func(*html.Node)
 
 	finder = func(n *html.Node) {
@@ -432,7 +435,8 @@ func InnerText(node *html.Node) string {
 
 		case html.ElementNode:
 			if n.Data == "br" {
-				buffer.WriteString(`|\/|`)
+				buffer = &bytes.Buffer{}
+				lines = append(lines, buffer)
 				return
 			}
 
@@ -444,7 +448,7 @@ func InnerText(node *html.Node) string {
 			// words before and after their boundaries.
 			if GetDisplayStyle(n) != "inline" {
 				buffer.WriteString(" ")
-				defer buffer.WriteString(" ")
+				defer func() { buffer.WriteString(" ") }()
 			}
 		}
 
@@ -454,10 +458,13 @@ func InnerText(node *html.Node) string {
 	}
 
 	finder(node)
-	text := buffer.String()
-	text = strings.Join(strings.Fields(text), " ")
-	text = rxTempNewline.ReplaceAllString(text, "\n")
-	return text
+
+	normalizedLines := make([]string, len(lines))
+	for i, line := range lines {
+		normalizedLines[i] = strings.Join(strings.Fields(line.String()), " ")
+	}
+
+	return strings.Join(normalizedLines, "\n")
 }
 
 // GetArea in original code returns area of a node by multiplying
